@@ -4,6 +4,7 @@ import (
 	"fmt"
 	"go/token"
 	"go/types"
+	"strings"
 
 	"golang.org/x/tools/go/ssa"
 )
@@ -177,6 +178,21 @@ func dominatingCondsOtherThanLoop(in ssa.Instruction) []condEdge {
 		if e, ok := ce.cond.(*ssa.Extract); ok {
 			if _, isNext := e.Tuple.(*ssa.Next); isNext {
 				continue
+			}
+		}
+		// range-over-func bodies start with a synthetic "yield still valid" test on a jump$N cell
+		if b, ok := ce.cond.(*ssa.BinOp); ok {
+			if u, ok := b.X.(*ssa.UnOp); ok {
+				switch x := u.X.(type) {
+				case *ssa.FreeVar:
+					if strings.HasPrefix(x.Name(), "jump$") {
+						continue
+					}
+				case *ssa.Alloc:
+					if strings.HasPrefix(x.Comment, "jump$") {
+						continue
+					}
+				}
 			}
 		}
 		if b, ok := ce.cond.(*ssa.BinOp); ok {
